@@ -77,6 +77,25 @@ def main():
     if a.prop not in RUNNERS:
         log(f"unknown property {a.prop}")
         return 2
+    # the costliest semantic checks: their thorough tier is the quick-tier configuration under three seeds (other programs, other
+    # rotations of the enumeration cores); the deeper caps took more than an hour each
+    if a.tier == "thorough" and a.prop in ("C02", "C08", "C19") and not a.replay:
+        rc = 0
+        for k in range(3):
+            ctx = Ctx(a.prop, "thorough", seed + k)
+            ctx.force_quick = True
+            try:
+                rc = max(rc, RUNNERS[a.prop](ctx))
+            except ToolError as e:
+                log(f"TOOL ERROR [{a.prop}]: {e}")
+                rc = max(rc, 2)
+            except Exception:
+                import traceback
+                log(f"TOOL ERROR [{a.prop}]: unexpected exception in the checker\n" + traceback.format_exc())
+                rc = max(rc, 2)
+            finally:
+                ctx.cleanup()
+        return rc
     ctx = Ctx(a.prop, a.tier, seed)
     if a.replay:
         try:
